@@ -30,7 +30,8 @@ def explicit_job(job, evs):
 def conformance(work, files, tag="k"):
     """TraceKismet: is every recorded plain-cache operation a path through Kismet.tla's control flow?"""
     res = validate_traces(work, "TraceKismet", files, {"monitors": []}, tag=tag) + \
-        validate_traces(work, "TraceKismet", files, {"monitors": []}, tag=tag + "s", cfgname="TraceKismetSharded.cfg")
+        validate_traces(work, "TraceKismet", files, {"monitors": []}, tag=tag + "s", cfgname="TraceKismetSharded.cfg") + \
+        validate_traces(work, "TraceKismet", files, {"monitors": []}, tag=tag + "t", cfgname="TraceKismetStack.cfg")
     ops = 0
     drifts = []
     for r in res:
